@@ -147,18 +147,28 @@ def run(ctx):
                 eqs = [r for r in rels if r[0] == "Eq" and r[1][0] != "discr"]
                 okf = False
                 det = ""
+                from lib import le_u32_source, arith_eval, NotArith
+                BUF = ("param", fnp, 1)
                 for r in eqs:
                     sides = [W.expand(r[1]), W.expand(r[2])]
-                    rep = [s for s in sides if values.contains(s, lambda x: is_call(x) and callee_name(x[1]) == "read_u32")]
-                    act = [s for s in sides if values.contains(s, lambda x: isinstance(x, tuple) and x[0] == "len")]
-                    if rep and act:
-                        # reported: LE u32 read from buf[8..12]; actual: len(buf) - 12
-                        rsrc = [x for x in values.subterms(rep[0]) if isinstance(x, tuple) and x and x[0] == "index"]
-                        okrep = any(x[1] == ("param", fnp, 1) and x[2][0] == "agg" and x[2][2] == (("int", 8), ("int", 12)) for x in rsrc)
-                        a0 = uncast(act[0])
-                        okact = a0 == ("bin", "Sub", ("len", ("param", fnp, 1)), ("int", 12))
-                        okf = okrep and okact
-                        det = "reported=%s actual=%s" % (fmt(rep[0]), fmt(act[0]))
+                    for (x, y) in ((sides[0], sides[1]), (sides[1], sides[0])):
+                        # x: the frame's length word = LE u32 decoded from buf[8..12]; y: an expression equal to len(buf) - 12
+                        src = None
+                        for cand in values.subterms(x):
+                            if is_call(cand) and callee_name(cand[1]) in ("read_u32", "from_le_bytes"):
+                                src = le_u32_source(W, cand)
+                                if src is not None:
+                                    break
+                        okrep = isinstance(src, tuple) and src and src[0] == "index" and values.strip_payload(src[1]) == BUF and src[2][0] == "agg" and src[2][2] == (("int", 8), ("int", 12))
+                        okact = False
+                        try:
+                            okact = all(arith_eval(uncast(y), {("len", BUF): L}) == L - 12 for L in (12, 16, 1024, 1500, 65536))
+                        except NotArith:
+                            okact = False
+                        if okrep and okact:
+                            okf = True
+                        if okrep or okact:
+                            det = "reported=%s actual=%s" % (fmt(x)[:120], fmt(y)[:120])
                 ctx.check("wellformed-gate", "RfcDraft13/frame-length-equals-payload", okf, "Ok only when the u32 LE at buf[8..12] equals len(buf) - 12",
                           "frame length check missing or altered (%s)" % det, fn.loc(bb))
                 from lib import fact_is_present
